@@ -589,7 +589,8 @@ func (session *HermesSession) Run(workingDir string, args []string, logID string
 			// ************ END OF SOWING MODULE ************
 			var STEPS float64
 			if WDT < g.DT.Num {
-				STEPS = g.DT.Num / WDT
+				// WDT is 1/n for an integral n: round, the quotient can come out just below n (n = 93: 92.99999999999999)
+				STEPS = math.Round(g.DT.Num / WDT)
 			} else {
 				STEPS, WDT = 1, 1
 			}
